@@ -465,6 +465,7 @@ parse_atvef(vbi_trigger *t, char *s1, double now)
 
 				if (i < (sizeof(type_attrs) / sizeof(type_attrs[0]) - 1)) {
 					t->link.itv_type = i + 1;
+					s--; /* the loop increment skips the ']' */
 					continue;
 				}
 
